@@ -134,6 +134,8 @@ impl<R: Recorder> Recorder for WeakRecorder<R> {
         if let Some(recorder) = self.recorder.upgrade() {
             recorder.register_counter(key, metadata)
         } else {
+            #[cfg(metrics_verif)]
+            metrics::__verif::probe("recoverable.inert_handle");
             Counter::noop()
         }
     }
